@@ -223,7 +223,7 @@ class C12(Engine):
         flags = rng.subset(["-l", "-q", "-dump_symbols", "-dump_macros"], 1, 3)
         faults = []
         if rng.chance(2, 5):
-            k = rng.below(7)
+            k = rng.below(8)
             incs = [f for f in sorted(prog["files"]) if f.endswith(".inc") or f.endswith(".dat")]
             if k == 0 and incs:
                 faults.append({"kind": "vanish", "path": rng.pick(incs), "nth": 2})
@@ -231,6 +231,9 @@ class C12(Engine):
                 faults.append({"kind": "open_fail", "path": list_path(out), "nth": 1, "errno": rng.pick(["EACCES", "ENOSPC", "EMFILE"]), "what": "list"})
                 if "-l" not in flags:
                     flags.append("-l")
+            elif k == 7:
+                # the source is a pipe (readable, not seekable): it cannot be read again for pass 2
+                faults.append({"kind": "noseek", "path": "a.asm", "nth": 0, "what": "source"})
             elif k == 6:
                 # the listing cannot be written (disk full after k bytes): whatever the program makes of that, status,
                 # diagnostics and the file at -o still have to agree
